@@ -44,16 +44,9 @@ RejectionOk(r) == /\ Good(r) /\ Len(r.wr) = 3 /\ Len(r.w) = WLen(r.wr)
 (* convex, no Hessian.  The filtered image is recorded (kx fractional      *)
 (* bits, exact), the gradient with 10 fractional bits.                     *)
 (***************************************************************************)
-Sgn(a) == IF a >= 0 THEN 1 ELSE -1        \* as the implementation: sign(0) = +1
 FRConfigOk(r) == /\ r.prior = "frp" /\ ~r.convex /\ r.hessErr /\ r.value1024 = 0
                  /\ r.unsetErr                      \* "Has to be called before using this object"
                  /\ r.filter \in {"none", "median", "scale"}
-FRGradOk(beta8, filter, lam, f, g) ==
-  IF beta8 = 0 \/ filter = "none" THEN g = 0
-  ELSE IF Abs(lam) < 1000 * Abs(f)
-       THEN LET q == ((lam - f) * 1024) \div f IN       \* floor((lambda/F - 1) 2^10)
-            Abs(8 * g - beta8 * q) <= 2 * Abs(beta8) + 8 + Abs(8 * g) \div 262144
-       ELSE 8 * g = beta8 * (1000 * Sgn(lam) * Sgn(f) - 1) * 1024
 ExplainsR(r) ==
   CASE r.e = "FRGrad" ->
          /\ Good(r) /\ ~r.err /\ r.resf = 0 /\ r.k = 10 /\ Len(r.x) = N /\ Len(r.f) = N /\ Len(r.g) = N
@@ -70,16 +63,6 @@ ExplainsR(r) ==
 (* penalty is computed".  State: ready (set_up done and not invalidated),  *)
 (* kappaOk (the kappa image matches the image of the calls).               *)
 (***************************************************************************)
-NotImplemented(prior, fn) == \/ prior = "pls" /\ fn \in {"hessian", "htimes", "happrox"}
-                             \/ prior \in {"rdp", "logcosh"} /\ fn = "happrox"
-\* RelativeDifferencePrior::set_weights / set_kappa_sptr reset the set-up flag (the other classes do not)
-SetterInvalidates(prior) == prior = "rdp"
-ProtoNext(cc, r) ==
-  CASE r.e = "SetUp" -> [cc EXCEPT !.ready = (cc.ready \/ ~r.err)]
-    [] r.e = "SetKappa" -> [cc EXCEPT !.kappaOk = r.match, !.ready = (cc.ready /\ ~SetterInvalidates(cc.prior))]
-    [] r.e = "SetWeights" -> [cc EXCEPT !.ready = (cc.ready /\ ~SetterInvalidates(cc.prior))]
-    [] OTHER -> cc
-CallMustFail(cc, fn) == NotImplemented(cc.prior, fn) \/ ~cc.ready \/ ~cc.kappaOk
 ExplainsP(r) ==
   CASE r.e = "SetUp" -> ~r.err
     [] r.e \in {"SetKappa", "SetWeights", "SetBeta"} -> TRUE
